@@ -511,6 +511,20 @@ def gen_C05(tier, rng):
             ins.append(("leaf", False, f, int_vals(prod(f), rng, 10, 50)))
             ins.append(("op", ("matmul", ta, tb), [0, 1, 2]))
         cases.append(case("mm_sparse", ins, "structured_zeros"))
+    # per-batch additive terms: the term has leading dimensions of its own ([b,1,cols], [b,rows,cols], [b,cols] ...)
+    for k3 in range(60 if tier == "quick" else 600):
+        rows, inner, cols = rng.randint(1, 3), rng.randint(1, 3), rng.randint(1, 3)
+        ta, tb = bool(k3 & 1), bool(k3 & 2)
+        bsz = rng.randint(2, 3)
+        la = [bsz] if k3 % 3 else [1, bsz]
+        lb = rng.choice([[], [bsz], [1]])
+        da = la + mat_dims(rows, inner, ta)
+        db = lb + mat_dims(inner, cols, tb)
+        fc = rng.choice([[bsz, 1, cols], [bsz, rows, cols], [bsz, 1, 1], [1, rows, cols], [1, 1, cols]])
+        ins = [("leaf", False, da, int_vals(prod(da), rng)), ("leaf", False, db, int_vals(prod(db), rng)),
+               ("leaf", False, fc, [float(100 * (i + 1)) for i in range(prod(fc))]),
+               ("op", ("matmul", ta, tb), [0, 1, 2])]
+        cases.append(case("mm_term_lead", ins, "additive_term_with_leading_dimensions"))
     # both operands are views (reshape) or clones of ONE buffer: the product is decided by dimensions and flags only
     for r_, c_ in itertools.product((1, 2, 3), repeat=2):
         n = r_ * c_
@@ -1699,6 +1713,32 @@ def gen_C11(tier, rng):
             c["log_expect"].append((at, sorted(s for s in seen if s in c["custom_nodes"])))
         c["custom_edges"] = [(cns, o) for (cns, o, t) in edges if t and o in c["custom_nodes"]]
         cases.append(c)
+    # a user-closure node reached through an untracked entry (a frozen clone used as a constant) AND through two or
+    # three tracked ones, the frozen use built first, in the middle or last: its derivative runs once, with the
+    # complete adjoint of the tracked uses
+    for k2 in range(90 if tier == "quick" else 900):
+        b = randprog.Builder(rng, exact=True)
+        x = b.leaf([2], tracked=True)
+        y = b.leaf([2], tracked=True)
+        kn = rng.choice(kinds)
+        nnode = b.result(("custom", kn), [x] if kn == "sq" else [x, y], [2], False, True, 0)
+        nnode.tracked = True
+        b.emit(("clone", nnode.idx))
+        fz = randprog.Var(len(b.ins) - 1, [2], False, False, True, 1.0)
+        b.vars[fz.idx] = fz
+        b.emit(("stop", fz.idx))
+        w = b.leaf([2], tracked=True)
+        uses = []
+        frozen_at = k2 % 3
+        for j in range(3):
+            if j == frozen_at:
+                uses.append(b.result(("mul",), [fz, w] if k2 % 2 else [w, fz], [2], False, True, 0))
+            else:
+                uses.append(b.result(("scale", float(2 + j)), [nnode], [2], False, True, 0))
+        cur = uses[0]
+        for u in uses[1:]:
+            cur = b.result(("add",), [cur, u] if k2 % 4 < 2 else [u, cur], [2], False, True, 0)
+        cases.append(log_case("mixed", b, cur, b.seed_for(cur, "int"), "dag:untracked_and_tracked_entries"))
     # chains of self-products: 2^depth paths, depth closure calls
     for depth in ([40, 50, 60] if tier == "quick" else list(range(30, 64, 2))):
         b = randprog.Builder(rng, exact=True)
@@ -1864,6 +1904,26 @@ def gen_C17(tier, rng):
             c["role"] = role
             c["coeffs"] = (alpha, beta)
             cases.append(c)
+    # a seed of zeros is a seed like any other: the gradients are zeros (present), and the next pass adds to them
+    for i in range(40 if tier == "quick" else 400):
+        d = rng.choice([[2], [3], [2, 2]])
+        nel = prod(d)
+        av, bv = int_vals(nel, rng), int_vals(nel, rng)
+        kind = rng.choice(["mul", "add", "self"])
+        ins = [("leaf", True, d, av), ("leaf", True, d, bv)]
+        ins.append(("op", ("mul",), [0, 0]) if kind == "self" else ("op", (kind,), [0, 1]))
+        s2 = int_vals(nel, rng, 1, 3)
+        ins += [("backward", 2, (d, [0.0] * nel)), ("grad", 0), ("backward", 2, (d, s2)), ("grad", 0)]
+        if kind == "mul":
+            g2 = [x * y for x, y in zip(s2, bv)]
+        elif kind == "add":
+            g2 = list(s2)
+        else:
+            g2 = [2 * x * y for x, y in zip(s2, av)]
+        c = case("zero_seed", ins, "zero_seed_then_pass")
+        c["expect_at"] = [(4, d, [0.0 * x for x in g2]), (6, d, g2)]
+        c["adjudicate"] = [4, 6]
+        cases.append(c)
     return cases
 
 
@@ -1927,7 +1987,7 @@ PROPS["C17"] = {
             "program text",
     "exhaustive": {"quick": False, "thorough": False},
     "assumptions": ["user-defined operations are the harness library's (linear in the adjoint)"],
-    "post": ["linearity"],
+    "post": ["linearity", "expected_gradients"],
 }
 
 
@@ -2517,6 +2577,23 @@ def gen_C18(tier, rng):
           ("sigmoid",), ("softmax",), ("sum", 1), ("sum", 0), ("reshape", [4])]
     bi = [("add",), ("sub",), ("mul",), ("div",), ("axpy", 0.5), ("matmul", False, False), ("matmul", True, False),
           ("matmul", False, True), ("matmul", True, True)]
+    # batched left operands against one shared matrix (what a dense layer does with a batch), single-row stacks
+    # included: pass, results dropped, the gradients LEFT on the leaves, Vec::from on the left operand
+    for da in ([2, 1, 3], [3, 1, 2], [2, 2, 3], [1, 2, 1, 3]):
+        for tb in (False, True):
+            for keep_b_grad in (False, True):
+                k_ = da[-1]
+                db = [k_, 2] if not tb else [2, k_]
+                ins = [("leaf", True, da, iota(prod(da), 1.0)), ("leaf", True, db, iota(prod(db), 2.0)),
+                       ("op", ("matmul", False, tb), [0, 1]), ("backward", 2, None), ("obs", 1), ("drop", 2),
+                       ("cleargrad", 0)]
+                if not keep_b_grad:
+                    ins.append(("cleargrad", 1))
+                ins.append(("takevec", 0))
+                c = case("release_stack", ins, "release_batched_left_operand")
+                c["takes"] = [len(ins) - 1]
+                c["adjudicate"] = c["takes"]
+                cases.append(c)
     # a seed that is an existing array: after the pass, with the stored gradients cleared and the results dropped,
     # the seed is sole owner of its buffer again (nothing of the pass - no pending delta - may still hold it)
     for opk in ("dot_c", "add", "reshape", "matmul_c", "sub"):
@@ -3105,11 +3182,15 @@ def model_case(rng, tier):
             keep = rng.randint(1, len(out_dims) - 1)
             t_dims = out_dims[len(out_dims) - keep:]
             t = t[:prod(t_dims)]
-        ins.append(("leaf", False, t_dims, t))
+        t_tracked = rng.random() < 0.25 and not huge
+        ins.append(("leaf", t_tracked, t_dims, t))
         ti = len(ins) - 1
         double = rng.random() < 0.15
         ins.append(("mbackward", ti))
         bi = len(ins) - 1
+        if t_tracked:
+            # a tracked target takes part in the pass like any other operand of the cost: it gets its gradient
+            ins.append(("grad", ti))
         if double:
             ins.append(("mbackward", ti))
         if rng.random() < 0.15 and not huge:
@@ -3470,6 +3551,41 @@ def gen_C08(tier, rng):
                  **({} if exact else {"rtol": 1e-7}))
         c["snaps"] = snaps
         c["lenient_missing"] = True
+        cases.append(c)
+    # seeds that are existing arrays, on graphs where a leaf is broadcast only along unit dimensions ([n] against
+    # [1,n], [n,1] against [n,1,1] ...) and has several consumers: the seed, the operands and every gradient read so
+    # far are snapshotted before and after each further pass
+    for n in range(120 if tier == "quick" else 1500):
+        k_ = rng.randint(2, 3)
+        small, bigd = rng.choice([([k_], [1, k_]), ([k_], [1, 1, k_]), ([k_, 1], [1, k_, 1]), ([1, k_], [1, 1, k_])])
+        nel = prod(bigd)
+        ins = [("leaf", True, small, int_vals(prod(small), rng)), ("leaf", True, bigd, int_vals(nel, rng)),
+               ("leaf", False, bigd, int_vals(nel, rng, 1, 4))]
+        terms = []
+        for _ in range(rng.randint(2, 3)):
+            kk = rng.choice(["add", "sub", "mul"])
+            ins.append(("op", (kk,), [0, 1] if rng.random() < 0.5 else [1, 0]))
+            terms.append(len(ins) - 1)
+        root = terms[0]
+        for t_ in terms[1:]:
+            ins.append(("op", ("add",), [root, t_] if rng.random() < 0.5 else [t_, root]))
+            root = len(ins) - 1
+        snaps = []
+        watch = [0, 1, 2]
+        def snap_all():
+            for v in watch:
+                ins.append(("obs", v))
+                snaps.append((len(ins) - 1, v, 0))
+        snap_all()
+        for _ in range(rng.randint(1, 3)):
+            ins.append(("backwardh", root, 2, bigd, list(ins[2][3])))
+            snap_all()
+            if rng.random() < 0.5:
+                ins.append(("fetchgrad", rng.choice([0, 1, root])))
+                watch.append(len(ins) - 1)
+                snap_all()
+        c = case("seed_snap", ins, "existing_seed_unit_dimension_broadcast")
+        c["snaps"] = snaps
         cases.append(c)
     # user-defined derivative closures that KEEP a handle on every array they hand back (a gradient hook): those
     # arrays are existing arrays like any other and must not change afterwards, however the engine accumulates
